@@ -38,9 +38,17 @@ pub async fn seed_dataset(
     let pw = ParquetWriter::new();
     let mut gen = RowGen::new();
     let mut out = Vec::new();
+    // one dataset in twenty-five has a chunk that is read back in two record batches (more than 8192 rows)
+    let big_chunk = if sim::w(25) == 24 { Some(sim::w(n_chunks.max(1) as u32) as usize) } else { None };
     for c in 0..n_chunks {
         let b = (c % buckets.max(1)) as i64;
         let nrows = 1 + sim::w(4) as usize;
+        let nrows = if big_chunk == Some(c) {
+            sim::probe("seed-chunk-with-two-record-batches");
+            8192 + nrows
+        } else {
+            nrows
+        };
         // a quarter of the chunks carry extreme values (both zeros, NaN, infinities, subnormals, NULL)
         let extreme = sim::w(4) == 3;
         // one chunk in five lies across the end of its hour bucket (indexed under two buckets, grouped under one)
@@ -48,7 +56,13 @@ pub async fn seed_dataset(
         let nrows = if straddle { nrows.max(2) } else { nrows };
         let rows: Vec<Row> = (0..nrows)
             .map(|i| {
-                let ts = if straddle { base_ts + (b + 1) * HOUR - 5 * SEC + (i as i64) * 10 * SEC + c as i64 } else { base_ts + b * HOUR + (c as i64 * 10 + i as i64) * SEC };
+                let ts = if nrows > 8192 {
+                    base_ts + b * HOUR + (c as i64 * 10) * SEC + i as i64 * 1_000_000
+                } else if straddle {
+                    base_ts + (b + 1) * HOUR - 5 * SEC + (i as i64) * 10 * SEC + c as i64
+                } else {
+                    base_ts + b * HOUR + (c as i64 * 10 + i as i64) * SEC
+                };
                 gen.row(ts, extreme)
             })
             .collect();
